@@ -80,6 +80,9 @@ enum Ev {
     /// retransmission refers to. (A request with a valid header and unparsable objects *is* a
     /// request; the library remembers it like any other.)
     Bad(u8),
+    /// a DIRECT_OPERATE_NR with other objects sent to the broadcast address: executed, never
+    /// answered, and not the request a later retransmission refers to
+    BroadcastNr,
     Repeat,
     SolConfirm(bool),
     UnsConfirm,
@@ -113,6 +116,7 @@ fn alphabet(reqs: &[R], reconnect: bool) -> Vec<Ev> {
     let mut v: Vec<Ev> = Vec::new();
     v.push(Ev::Repeat);
     v.push(Ev::Bad(0));
+    v.push(Ev::BroadcastNr);
     for r in reqs {
         v.push(Ev::Req(*r));
     }
@@ -213,6 +217,12 @@ impl Scenario for C05 {
                     last_seq = (last_seq + 1) & 0x0F;
                     sent_now = Some(if *k == 0 { app::request(last_seq, 0x70, &[]) } else { app::request(last_seq, fc::READ, &[0xFF]) });
                     is_bad = true;
+                }
+                Ev::BroadcastNr => {
+                    last_seq = (last_seq + 1) & 0x0F;
+                    let objs = app::prefixed8(12, 1, &[(9, app::crob(0x04, 7, 170, 11, 0))]);
+                    let f = app::request(last_seq, fc::DIRECT_OPERATE_NR, &objs);
+                    sim.send_from(crate::osim::MASTER_ADDR, 0xFFFF, &f);
                 }
                 Ev::Repeat => {
                     if let Some(f) = &last_req {
@@ -354,6 +364,8 @@ impl Scenario for C05 {
                 match ev {
                     Ev::Timeout | Ev::Reconnect => sol_wait = false,
                     Ev::Req(_) => sol_wait = false,
+                    // a broadcast request is a new request: it ends a solicited series
+                    Ev::BroadcastNr => sol_wait = false,
                     Ev::SolConfirm(true) => sol_wait = false,
                     _ => {}
                 }
